@@ -60,10 +60,12 @@ def main():
     m = {
         'version': 1,
         'setup_cmd': 'cd /verif && python3-vt mirsym/mirdump.py liwe iwes && cd replay && CARGO_NET_OFFLINE=true cargo build --offline --quiet',
-        'hooks': {'guard': 'none (no source hooks: the executor reads compiler output, Kani harnesses attach to a scratch copy via cfg(kani))',
+        'hooks': {'guard': 'none in /repo (no source hooks: the executor reads compiler output; Kani harnesses are appended to a scratch copy under cfg(kani))',
                   'enable': 'not needed', 'baseline_off_cmd': 'cd /repo && cargo test --workspace --no-fail-fast --offline',
                   'source_commits': [], 'add_only': True},
-        'engines': [{'name': 'mirsym', 'path': '/verif/mirsym', 'serves_properties': sorted(props.PROPS),
+        'engines': [{'name': 'kani', 'path': '/verif/kani', 'serves_properties': ['C06', 'C07', 'C13'],
+                     'kind_free_text': 'Kani 0.68 / CBMC proof harnesses over the scalar kernels of the real compiled crate (attached to a scratch copy via cfg(kani)); cross-check of the MIR executor'},
+                    {'name': 'mirsym', 'path': '/verif/mirsym', 'serves_properties': sorted(props.PROPS),
                      'kind_free_text': 'symbolic executor for rustc MIR text (Python + z3): path forking by re-execution, concrete shapes with symbolic leaves, native models for std, replay of models on the native build'}],
         'checks': checks,
         'not_applicable': na,
